@@ -38,6 +38,7 @@ pub fn names_check(catalogue_file: &str, out: &mut Outcome) {
     let mut unresolved = vec![];
     let mut collisions = vec![];
     let mut missing = vec![];
+    let mut accepted_unknown = vec![];
     for c in crate::report::CATS {
         let names = as_strs(&cat[c]);
         let mut image: BTreeMap<String, String> = BTreeMap::new();
@@ -58,6 +59,42 @@ pub fn names_check(catalogue_file: &str, out: &mut Outcome) {
                 }
             }
         }
+        // near misses: strings that are NOT a documented name of this category in any casing must not select anything
+        let lower: Vec<String> = names.iter().map(|n| n.to_lowercase()).collect();
+        let mut near: Vec<String> = vec!["".into(), "*".into(), "all".into(), "_".into()];
+        for n in names.iter() {
+            let chars: Vec<char> = n.chars().collect();
+            near.push(format!("{}s", n));
+            near.push(format!("{}_", n));
+            near.push(format!("_{}", n));
+            near.push(format!("{}_v2", n));
+            near.push(format!("{}{}", n, n));
+            near.push(format!("{}S", n.to_uppercase()));
+            near.push(chars[..chars.len() - 1].iter().collect());
+            near.push(chars[1..].iter().collect());
+            near.push(n.replace('_', "-"));
+            near.push(n.replace('_', ""));
+            near.push(n.replace('_', "__"));
+            near.push(format!("{}x", chars[..chars.len() - 1].iter().collect::<String>()));
+            near.push(format!("{}{}", chars[0], n));
+            near.push(format!("{}.", n));
+            near.push(format!("{}\u{0}", n));
+            near.push(format!("{}\u{e9}", n));
+        }
+        for other in crate::report::CATS {
+            if other != c {
+                near.extend(as_strs(&cat[other]));
+            }
+        }
+        for s in near {
+            if lower.contains(&s.to_lowercase()) {
+                continue;
+            }
+            out.evaluations += 1;
+            if let Ok(p) = resolve(c, &s) {
+                accepted_unknown.push(json!([c, s, p]));
+            }
+        }
         let defaults: Vec<String> = match c {
             "optimizations" => get_all_optimizations().iter().map(|o| format!("{:?}", o)).collect(),
             "vulnerabilities" => get_all_vulnerabilities().iter().map(|o| format!("{:?}", o)).collect(),
@@ -70,7 +107,8 @@ pub fn names_check(catalogue_file: &str, out: &mut Outcome) {
         }
     }
     out.nontrivial = out.evaluations;
-    out.set("names_record", json!({"k": "names", "unresolved": unresolved, "collisions": collisions, "defaults_without_name": missing}));
+    out.set("names_record", json!({"k": "names", "unresolved": unresolved, "collisions": collisions, "defaults_without_name": missing,
+                                   "accepted_unknown": accepted_unknown}));
 }
 
 /// report-parse <file>: {"exists", "parts": {cat: items}, "garbage"}
